@@ -16,7 +16,7 @@ import types
 
 import numpy as np
 
-from . import c11, common
+from . import c11, common, gencalls
 from .common import sx
 
 BACKEND_FILE = "frontend/backend.py"
@@ -313,18 +313,188 @@ def run(ctx):
             ctx.sample({"programs": case["programs"], "serial_orders": len(serial)})
     for m in range(2, 60):
         sys.modules.pop(c11.modname(m), None)
+    callstats = run_call_mode(ctx)
     ctx.coverage.update({
-        "evaluations": total, "traces_validated_against_impl": total,
+        "evaluations": total + callstats["call_mode_cases"], "traces_validated_against_impl": total,
         "rule": "programs of 2-3 threads x <= 4 registry operations; schedules = random thread choices at every source line of "
-                "frontend/backend.py (bursty and uniform); distinct_nontrivial = distinct (programs, executed schedule)",
-        "input_distribution": {"cases": ncases, "schedules_per_case": nsched, "runs_with_a_failing_operation": fails,
+                "frontend/backend.py (bursty and uniform); part B: 2-3 threads x 1-2 whole einx calls (fresh descriptions: tracing, "
+                "compilation and cache fill happen concurrently), one thread runs at a time and hands over after a chosen number of "
+                "function calls inside einx's source, every result compared with the same call executed alone in a private process; "
+                "distinct_nontrivial = distinct (programs, executed schedule)",
+        "input_distribution": {**callstats, "cases": ncases, "schedules_per_case": nsched, "runs_with_a_failing_operation": fails,
                                "failures_explained_by_a_serial_order": explained},
     })
+
+
+# ---------------------------------------------------------------------------------------------
+# part B: whole calls (first-time tracing, compilation, cache fill) under controlled pre-emption
+# ---------------------------------------------------------------------------------------------
+def run_calls(programs, points, order_seed, backend_blocks=None):
+    """programs[i] = list of (op, desc, arrays, kw); exactly one thread runs at a time; thread i hands over when the number of
+    function calls it has made inside einx's source reaches one of points[i] (never while it holds the registry lock).
+    -> per-thread list of ("ok", [arrays]) / ("exc", class, site, message)"""
+    import random
+    import einx
+    import einx._src.frontend.backend as B
+    src = common.REPO.rstrip("/") + "/einx/"
+    n = len(programs)
+    cond = threading.Condition()
+    state = {"turn": 0, "done": [False] * n, "switches": 0}
+    rnd = random.Random(order_seed)
+    results = [[] for _ in range(n)]
+
+    def lock_owned():
+        try:
+            return B.registry.use_lock._is_owned()
+        except Exception:  # noqa: BLE001
+            return False
+
+    def hand_over(i, finished=False):
+        with cond:
+            if finished:
+                state["done"][i] = True
+            others = [j for j in range(n) if j != i and not state["done"][j]]
+            if not others:
+                return
+            state["turn"] = rnd.choice(others)
+            state["switches"] += 1
+            cond.notify_all()
+            if not finished:
+                while state["turn"] != i:
+                    cond.wait(20.0)
+
+    def worker(i):
+        with cond:
+            while state["turn"] != i:
+                cond.wait(20.0)
+        count = [0]
+        pts = set(points[i])
+
+        def glob(frame, event, arg):
+            if event == "call" and frame.f_code.co_filename.startswith(src):
+                count[0] += 1
+                if count[0] in pts and not lock_owned():
+                    hand_over(i)
+            return None
+        sys.settrace(glob)
+        try:
+            for op, desc, arrays, kw in programs[i]:
+                try:
+                    r = getattr(einx, op)(desc, *[np.array(a) for a in arrays], **kw)
+                    results[i].append(("ok", [np.asarray(x) for x in (r if isinstance(r, tuple) else (r,))]))
+                except BaseException as e:  # noqa: BLE001
+                    results[i].append(("exc", common.classify_exc(e), common.exc_site(e), str(e)[:300]))
+        finally:
+            sys.settrace(None)
+            hand_over(i, finished=True)
+
+    ths = [threading.Thread(target=worker, args=(i,), daemon=True) for i in range(n)]
+    for t in ths:
+        t.start()
+    for t in ths:
+        t.join(120.0)
+    stuck = any(t.is_alive() for t in ths)
+    return results, state["switches"], stuck
+
+
+def _call_case(item):
+    programs, expected, points, order_seed = item
+    import einx  # noqa: F401
+    out = []
+    results, switches, stuck = run_calls(programs, points, order_seed)
+    if stuck:
+        return switches, [({"kind": "threads_stuck"}, {"programs": [[(o, d) for o, d, _, _ in pr] for pr in programs], "points": points})]
+    for i, (prog, res) in enumerate(zip(programs, results)):
+        for j, ((op, desc, arrays, kw), r) in enumerate(zip(prog, res)):
+            exp = expected[i][j]
+            rec = {"thread": i, "op": op, "desc": desc, "kwargs": kw, "shapes": [list(np.shape(a)) for a in arrays], "points": points, "order_seed": order_seed,
+                   "programs": [[{"op": o, "desc": d, "kwargs": k2, "inputs": [np.asarray(a).tolist() for a in ar]} for o, d, ar, k2 in pr] for pr in programs]}
+            if r[0] == "exc":
+                if exp[0] == "exc" and exp[1] == r[1]:
+                    continue
+                out.append(({"kind": "call_fails_under_concurrency", "exc": r[1], "site": r[2]}, {**rec, "message": r[3], "alone": exp[0] if exp[0] == "exc" else "value"}))
+            elif exp[0] == "exc":
+                out.append(({"kind": "call_succeeds_only_under_concurrency"}, rec))
+            elif len(exp[1]) != len(r[1]) or any(not gencalls.matches(e, g) for e, g in zip(exp[1], r[1])):
+                out.append(({"kind": "wrong_value_under_concurrency", "op": op}, {**rec, "expected": [np.asarray(e).tolist() for e in exp[1]][:1],
+                                                                                  "observed": [np.asarray(g).tolist() for g in r[1]][:1]}))
+    return switches, out
+
+
+def alone_outcome(item):
+    """the call executed alone in this (forked, otherwise unused) process"""
+    op, desc, arrays, kw = item
+    import einx
+    try:
+        r = common.with_alarm(60, getattr(einx, op), desc, *[np.array(a) for a in arrays], **kw)
+        return ("ok", [np.asarray(x) for x in (r if isinstance(r, tuple) else (r,))])
+    except BaseException as e:  # noqa: BLE001
+        return ("exc", common.classify_exc(e), common.exc_site(e), str(e)[:300])
+
+
+def gen_call_cases(rng, ncases):
+    cases = []
+    for _ in range(ncases):
+        nthreads = rng.choice([2, 2, 3])
+        pool = [gencalls.gen_call(rng) for _ in range(rng.randint(2, 4))]
+        programs = []
+        for _t in range(nthreads):
+            prog = []
+            for _k in range(rng.randint(1, 2)):
+                c = rng.choice(pool)                       # the same call in several threads: concurrent fill of one cache entry
+                prog.append((c.op, c.desc, c.arrays, {**c.size_kwargs(), **c.extra_kwargs}))
+            programs.append(prog)
+        points = []
+        for _t in range(nthreads):
+            k = rng.randint(1, 4)
+            points.append(sorted({rng.randint(1, 3000) if rng.random() < 0.5 else rng.randint(1, 20000) for _ in range(k)}))
+        cases.append((programs, points, rng.randrange(10 ** 6)))
+    return cases
+
+
+def run_call_mode(ctx):
+    quick = ctx.tier == "quick"
+    cases = gen_call_cases(ctx.rng, 120 if quick else 3000)
+    # expected outcome of every distinct call: executed alone (one per forked process slot; the cache of that process is private)
+    distinct = {}
+    for programs, _, _ in cases:
+        for prog in programs:
+            for it in prog:
+                distinct.setdefault((it[0], it[1], json.dumps(it[3], sort_keys=True), str([np.shape(a) for a in it[2]])), it)
+    keys = list(distinct)
+    alone = dict(zip(keys, common.pmap(alone_outcome, [distinct[k] for k in keys])))
+    items = []
+    for programs, points, seed in cases:
+        expected = [[alone[(it[0], it[1], json.dumps(it[3], sort_keys=True), str([np.shape(a) for a in it[2]]))] for it in prog] for prog in programs]
+        items.append((programs, expected, points, seed))
+    res = common.pmap(_call_case, items, procs=4)
+    switches = 0
+    for (programs, points, seed), (sw, viol) in zip(cases, res):
+        switches += sw
+        for tags, payload in viol:
+            ctx.report(tags, payload)
+        ctx.distinct.add(json.dumps([[[o, d] for o, d, _, _ in pr] for pr in programs]) + str(points))
+    return {"call_mode_cases": len(cases), "call_mode_context_switches": switches, "call_mode_distinct_calls": len(keys)}
 
 
 def replay(ctx, path):
     data = json.load(open(path))
     case, sched = data.get("case"), data.get("schedule")
+    if case is None and "programs" in data and "points" in data:
+        import multiprocessing as mp
+        import einx  # noqa: F401
+        programs = [[(c["op"], c["desc"], [np.array(a) for a in c["inputs"]], c["kwargs"]) for c in pr] for pr in data["programs"]]
+        with mp.get_context("fork").Pool(1) as pool:          # the calls alone, in a process of their own
+            expected = [pool.map(alone_outcome, pr) for pr in programs]
+        sw, viol = _call_case((programs, expected, data["points"], data["order_seed"]))
+        print("programs:", [[(o, d) for o, d, _, _ in pr] for pr in programs], "switch points:", data["points"], "context switches:", sw)
+        for tags, payload in viol:
+            print(tags, str(payload.get("message", ""))[:300])
+        if viol:
+            print(f"VIOLATION property=C10 replay={path}")
+            return 1
+        print("every call returned what it returns alone")
+        return 0
     if case is None:
         print(json.dumps(data)[:2000])
         return 1
